@@ -27,13 +27,18 @@ pub fn entropy_to_indices(ent: &[u8]) -> Vec<usize> {
     bits.chunks(11).map(|c| c.iter().fold(0usize, |a, b| (a << 1) | *b as usize)).collect()
 }
 pub fn indices_to_phrase(idx: &[usize]) -> String { idx.iter().map(|i| words()[*i]).collect::<Vec<_>>().join(" ") }
-pub fn entropy_to_phrase(ent: &[u8]) -> String { indices_to_phrase(&entropy_to_indices(ent)) }
+pub fn entropy_to_phrase(ent: &[u8]) -> String { let o = indices_to_phrase(&entropy_to_indices(ent)); crate::trace::rec("entropy_to_phrase", 500, || (crate::trace::h(ent), crate::trace::q(&o))); o }
 
 #[derive(Debug, Clone, PartialEq, Eq)]
 pub enum Reject { WordCount(usize), UnknownWord(String), Checksum }
 
 /// word tokens -> entropy, by the letter of BIP-39
 pub fn tokens_to_entropy(tokens: &[&str]) -> Result<Vec<u8>, Reject> {
+    let o = tokens_to_entropy_raw(tokens);
+    crate::trace::rec("tokens_to_entropy", 3000, || (crate::trace::q(&tokens.join(" ")), match &o { Ok(e) => crate::trace::h(e), Err(Reject::WordCount(_)) => "\"reject:count\"".into(), Err(Reject::UnknownWord(_)) => "\"reject:word\"".into(), Err(Reject::Checksum) => "\"reject:checksum\"".into() }));
+    o
+}
+fn tokens_to_entropy_raw(tokens: &[&str]) -> Result<Vec<u8>, Reject> {
     let n = tokens.len();
     if entropy_len_for_words(n).is_none() { return Err(Reject::WordCount(n)); }
     let mut bits = Vec::with_capacity(n * 11);
@@ -75,5 +80,7 @@ pub fn valid_last_words(first: &[usize]) -> Vec<usize> {
 /// seed = PBKDF2-HMAC-SHA512(canonical phrase, "mnemonic" + NFKD(passphrase)), 2048 rounds; caller supplies the NFKD form
 pub fn seed(canonical_phrase: &str, nfkd_passphrase: &str) -> [u8; 64] {
     let salt = format!("mnemonic{}", nfkd_passphrase);
-    pbkdf2_sha512_64(canonical_phrase.as_bytes(), salt.as_bytes(), 2048)
+    let o = pbkdf2_sha512_64(canonical_phrase.as_bytes(), salt.as_bytes(), 2048);
+    crate::trace::rec("bip39_seed", 150, || (format!("[{},{}]", crate::trace::q(canonical_phrase), crate::trace::q(nfkd_passphrase)), crate::trace::h(&o)));
+    o
 }
